@@ -105,7 +105,7 @@ def wrap(ci, inner):
 
 
 # ---- block contexts: (name, markdown template, html template, allows line breaks)
-CONTEXT_NAMES = ['paragraph', 'atx heading', 'table cell', 'tight list item', 'block quote']
+CONTEXT_NAMES = ['paragraph', 'atx heading', 'table cell', 'tight list item', 'block quote', 'table header cell', 'setext heading']
 
 
 def in_context(ci, node):
@@ -127,6 +127,16 @@ def in_context(ci, node):
         return '- w ' + md.replace('\n', '\n  ') + '\n- x' + REFDEFS, '<ul>\n<li>w ' + html + '</li>\n<li>x</li>\n</ul>\n'
     if ci == 4:
         return '> w ' + md.replace('\n', '\n> ') + REFDEFS, '<blockquote>\n<p>w ' + html + '</p>\n</blockquote>\n'
+    if ci == 5:
+        if node.brk or '|' in md:
+            return None
+        return ('| w ' + md + ' | k |\n| --- | --- |\n| x | y |' + REFDEFS,
+                '<table>\n<thead>\n<tr>\n<th align="left">w ' + html + '</th>\n<th align="left">k</th>\n</tr>\n</thead>\n<tbody>\n<tr>\n'
+                '<td align="left">x</td>\n<td align="left">y</td>\n</tr>\n</tbody>\n</table>\n')
+    if ci == 6:
+        if node.brk and ('  \n' in md or '\\\n' in md):
+            pass
+        return 'w ' + md + '\n===' + REFDEFS, '<h1>w ' + html + '</h1>\n'
     raise KeyError(ci)
 
 
